@@ -32,4 +32,10 @@ Definition svt_gap (e : F) (U : list (list F)) (s : list F) (V : list (list F)) 
 (* the two Gram matrices the SVD contract is about *)
 Definition gram_cols (U : list (list F)) : list (list F) := mat_mul Op (cols_of Op U) U.     (* U^T U *)
 Definition gram_rows (V : list (list F)) : list (list F) := mat_mul Op V (cols_of Op V).     (* V V^T *)
+(* procrustes without the exact SVD contract: <Q, M> <= <U V, M> + procrustes_gap for every Q with orthonormal columns (rows); d > 0 is a free
+   weight of the Cauchy-Schwarz step for the reconstruction residual M - U diag(s) V *)
+Definition procrustes_gap (e d : F) (U : list (list F)) (s : list F) (V M : list (list F)) : F :=
+  let R := mat_zip (fun a b => a -f b) M (mat_mul Op U (scale_rows Op s V)) in
+  let mn := nat2F Op (if Nat.leb (length M) (length (hd [] M)) then length (hd [] M) else length M) in     (* max(m, n) *)
+  ((one +f e) *f lsum Op s +f (d *f mn +f mat_frob R R /f d) /f two Op) -f mat_frob (mat_mul Op U V) M.
 End Gap.
